@@ -50,13 +50,16 @@ def unpack(
     if nbits not in {1, 2, 4}:
         msg = f"nbits must be 1, 2, or 4, got {nbits}"
         raise ValueError(msg)
-    if (not bitorder) or (bitorder[0] not in {"b", "l"}):
+    if not isinstance(bitorder, str) or bitorder not in {"big", "little", "b", "l"}:
         msg = f"bitorder must be 'big' or 'little', got {bitorder}"
         raise ValueError(msg)
     bitorder_str = "big" if bitorder[0] == "b" else "little"
     bitfact = 8 // nbits
     if unpacked is None:
         unpacked = np.zeros(shape=array.size * bitfact, dtype=np.uint8)
+    elif unpacked.dtype != np.uint8:
+        msg = f"Unpacking array must be uint8, got {unpacked.dtype}"
+        raise ValueError(msg)
     elif unpacked.size != array.size * bitfact:
         msg = f"Unpacking array must be {bitfact} x input size, got {unpacked.size}"
         raise ValueError(msg)
@@ -104,13 +107,19 @@ def pack(
     if nbits not in {1, 2, 4}:
         msg = f"nbits must be 1, 2, or 4, got {nbits}"
         raise ValueError(msg)
-    if (not bitorder) or (bitorder[0] not in {"b", "l"}):
+    if not isinstance(bitorder, str) or bitorder not in {"big", "little", "b", "l"}:
         msg = f"bitorder must be 'big' or 'little', got {bitorder}"
         raise ValueError(msg)
     bitorder_str = "big" if bitorder[0] == "b" else "little"
     bitfact = 8 // nbits
+    if array.size % bitfact != 0:
+        msg = f"Input size must be a multiple of {bitfact}, got {array.size}"
+        raise ValueError(msg)
     if packed is None:
         packed = np.zeros(shape=array.size // bitfact, dtype=np.uint8)
+    elif packed.dtype != np.uint8:
+        msg = f"packing array must be uint8, got {packed.dtype}"
+        raise ValueError(msg)
     elif packed.size != array.size // bitfact:
         msg = f"packing array must be input size // {bitfact}, got {packed.size}"
         raise ValueError(msg)
